@@ -386,6 +386,10 @@ class PriorityBuffer:
         if mask is not None:
             priority = priority * mask[:current_len]
         probabilities = np.cumsum(priority)
+        if mask is not None and probabilities[-1] <= 0.0:
+            # all entries are masked out: searchsorted would silently return
+            # index 0, which is not a valid entry
+            raise ValueError("No valid entry to sample from.")
         random_uniforms = rng.uniform(0, 1, size=batch_size) * probabilities[-1]
         self.sampled_indices = np.searchsorted(probabilities, random_uniforms)
         return self.sampled_indices
